@@ -7,7 +7,7 @@ package datasource
 //   round-trip   for each module, a rule list rendered in the module's wire format (the JSON tags of its Rule type;
 //                hotspot specific items as {valKind,valStr,threshold}) is delivered to a fresh handler; the rules
 //                in force afterwards (module GetRules) must equal the list, field by JSON-tagged field
-//   corpus       [null], mixed null/valid, wrongly typed elements, non-arrays, every VERIF_BOUND-th truncation of the
+//   corpus       [null], mixed null/valid, wrongly typed elements, non-arrays, a complete array followed by left-over bytes, every VERIF_BOUND-th truncation of the
 //                valid payload: Handle never panics; an error leaves the previous rules in force; success puts exactly
 //                the valid rules of the independently decoded list in force
 //   histories    every delivery sequence of length <= N over {A, B, empty, malformed, [null]} on one handler against
@@ -347,6 +347,9 @@ func TestVerifBounded(t *testing.T) {
 			[]byte(`[1]`), []byte(`["x"]`), []byte(`[[]]`), []byte(`[true]`), []byte(`{}`), []byte(`"rules"`), []byte(`7`), []byte(`null`), []byte(`[]`), []byte(` `), []byte(`[{}]`),
 			[]byte(`[{"resource":5}]`), []byte(`[{"threshold":"x"}]`), []byte(`[{"id":null,"resource":null}]`), m.malformed,
 		}
+		// a complete array followed by left-over bytes (a shorter file written over a longer one, two documents
+		// concatenated): not a JSON document
+		corpus = append(corpus, append(append([]byte{}, pa...), []byte(`]`)...), append(append([]byte{}, pa...), pa[len(pa)/2:]...), append(append([]byte{}, pa...), []byte(` x`)...), append(append([]byte{}, pa...), pb...), append([]byte(`[]`), pa...))
 		step := 9 - 2*n // quick (3): every 3rd truncation; thorough (>=4): every truncation
 		if step < 1 {
 			step = 1
